@@ -18,20 +18,38 @@ Definition val_of_header (h : smb_header) : val :=
   VL [VB (h_protocol h); vN (h_command h); vN (h_status h); vN (h_flags h); vN (h_flags2 h); vN (h_pidhigh h);
       VB (h_security h); vN (h_reserved h); vN (h_tid h); vN (h_pidlow h); vN (h_uid h); vN (h_mid h)].
 
+(* Message.Unmarshal into a fresh message *)
+Definition msg_unmarshal_val (data : list N) : val :=
+  match message_unmarshal all_cmds req_table resp_table data with
+  | Ok (h, c, v) =>
+      if cd_translated c then VL [val_of_header h; vS (cd_name c); fields_of c v] else vunknown
+  | Err => VErr
+  | Panic => VPanic
+  end.
+
 Definition dispatch_C03 (f : string) (args : list val) : val :=
   match args with
   | [VL hf] =>
-      if f =? "hdr.marshal" then r_bytes (header_marshal (header_of_val hf)) else vunknown
-  | [VB data] =>
-      if f =? "hdr.unmarshal" then
-        r_val (fun hn => VL [val_of_header (fst hn); vN (snd hn)]) (header_unmarshal data)
-      else if f =? "msg.unmarshal" then
+      if f =? "hdr.marshal" then r_bytes (header_marshal (header_of_val hf))
+      (* a sequence of Unmarshal calls on ONE message value: each result is what a fresh message gives *)
+      else if f =? "msg.unmarshal_seq" then
+        VL (map (fun v => match v with VB d => msg_unmarshal_val d | _ => vunknown end) hf)
+      else vunknown
+  | [VB data; VL fields] =>
+      (* decode, assign every field of the decoded command, encode twice *)
+      if f =? "msg.reencode_with" then
         match message_unmarshal all_cmds req_table resp_table data with
-        | Ok (h, c, v) =>
-            if cd_translated c then VL [val_of_header h; vS (cd_name c); fields_of c v] else vunknown
+        | Ok (h, c, _) =>
+            if cd_translated c then VL (map (fun r => r_bytes r) (message_marshal_n 2 h c (valuation_of c fields)))
+            else vunknown
         | Err => VErr
         | Panic => VPanic
         end
+      else vunknown
+  | [VB data] =>
+      if f =? "hdr.unmarshal" then
+        r_val (fun hn => VL [val_of_header (fst hn); vN (snd hn)]) (header_unmarshal data)
+      else if f =? "msg.unmarshal" then msg_unmarshal_val data
       else vunknown
   | [VN w] =>
       if f =? "hdr.is_response" then vbool (is_response (Z.to_N w)) else vunknown
